@@ -12,10 +12,21 @@ if VERIF not in sys.path:
 
 
 def run_one(mod, R, rec, subst=False):
+    """inputs the witness does not mention were unconstrained when the assertion failed; a few
+    default fillings are tried so that later assumptions of the harness can be met"""
+    last = None
+    for fill in range(5):
+        last = _run_one(mod, R, rec, subst, fill)
+        if last["status"] != "infeasible" or not last.get("defaulted"):
+            return last
+    return last
+
+
+def _run_one(mod, R, rec, subst, fill):
     from sx.harness import ConcEnv
     from sx.core import Infeasible
     from sx import env as sxenv
-    E = ConcEnv(rec["witness"], rec.get("params"))
+    E = ConcEnv(rec["witness"], rec.get("params"), fill)
     E.H = sxenv.NativeOracle(rec.get("oracle") if subst else None)
     if subst:
         E.H.patch_repo(R)
@@ -23,7 +34,7 @@ def run_one(mod, R, rec, subst=False):
         fn = getattr(mod, rec["fn"])
         ret = fn(E, R, **rec.get("params", {}))
     except Infeasible:
-        return dict(status="infeasible")
+        return dict(status="infeasible", defaulted=E.defaulted)
     except BaseException as e:
         return dict(status="error", detail="%s: %s" % (type(e).__name__, e), trace=traceback.format_exc()[-1500:])
     if E.failed:
